@@ -145,6 +145,35 @@ def _xfail_decorator() -> cst.Decorator:
     )
 
 
+class _PytestReferenceFinder(cst.CSTVisitor):
+    """Detects whether a rendered node mentions the name ``pytest``."""
+
+    def __init__(self) -> None:
+        super().__init__()
+        self.found = False
+
+    def visit_Name(self, node: cst.Name) -> None:  # noqa: N802, D102
+        if node.value == "pytest":
+            self.found = True
+
+
+def _references_pytest(node: cst.CSTNode) -> bool:
+    """Check whether rendered code refers to ``pytest``.
+
+    Besides ``pytest.raises`` and the ``xfail`` marker, float assertions are
+    rendered with ``pytest.approx``; the file must import pytest for all of them.
+
+    Args:
+        node: The rendered node (e.g. a test function).
+
+    Returns:
+        True if the name ``pytest`` occurs in the node.
+    """
+    finder = _PytestReferenceFinder()
+    node.visit(finder)
+    return finder.found
+
+
 def _public_sut_names(module: object, module_alias: str) -> list[str]:
     """Return the SUT module's public names, sorted.
 
@@ -443,6 +472,9 @@ class TestSuiteWriter:
             if any(e is not None for e in exc_types):
                 needs_pytest = True
             func, func_used_exc_types = self._build_test_function(idx, tc, exc_types)
+            if _references_pytest(func):
+                # e.g. float assertions are rendered with ``pytest.approx``
+                needs_pytest = True
             used_exc_types.update(func_used_exc_types)
             functions.append(func)
 
